@@ -4,8 +4,8 @@ EXTENDS AttentionMC
 Params == SeqOfSet(Singles) \o SeqOfSet(Mhas)
 QuerySq == <<<<1, 1>>, <<2, -1>>, <<1, 0>>, <<0, 1>>>>
 KeysSingle == SeqOfSet(KeysOf(1, 1) \cup KeysOf(2, 1) \cup KeysOf(3, 2))
-KeysMha == SeqOfSet(KeysOf(1, 1) \cup KeysOf(2, 3) \cup KeysOf(3, 10))
+KeysMha == SeqOfSet(KeysOf(1, 1) \cup KeysOf(2, 4) \cup KeysOf(3, 20))
 Keys == KeysSingle \o KeysMha
 Idx == {<<p, q, k>> : p \in 1..5, q \in 1..4, k \in 1..Len(KeysSingle)}
-       \cup {<<p, q, k>> : p \in 6..37, q \in 1..4, k \in (Len(KeysSingle) + 1)..Len(Keys)}
+       \cup {<<p, q, k>> : p \in 6..37, q \in 1..3, k \in (Len(KeysSingle) + 1)..Len(Keys)}
 =============================================================================
